@@ -658,7 +658,9 @@ class SSHStreamSession(Generic[AnyStr]):
                     buflen += len(newbuf)
                     curbuf += 1
 
-                if self._read_paused or self._eof_received:
+                # Reading is paused for the session as a whole, so only
+                # give up when this stream has buffered data to return
+                if (self._read_paused and buf) or self._eof_received:
                     recv_buf[:curbuf] = []
                     self._recv_buf_len -= buflen
                     self._maybe_resume_reading()
